@@ -5,6 +5,7 @@
     - 604  [parse_body]: a body that is not JSON ends the request with an HTTP 500.
     - 605  [is_init_secure_api val]: [val["method"] == "init_secure_api"].
     - 608-621 otherwise: no session key -> error value -32001 (check_encryption_started);
+           the method is not "encrypted_request_v3" (the [fix:] 3c97f05; [as_env] = None), or
            [serde_json::from_value::<EncryptedRequest>] fails -> -32002;
            [EncryptedBody::decrypt] under the CURRENT key fails (base64, nonce, AES-256-GCM
            tag, utf-8, JSON) -> -32002; otherwise [val] := the decrypted JSON value.
@@ -180,7 +181,7 @@ Definition ckey := (N * N)%type.
 
 Inductive cj :=
 | JCall (m : meth) (good notif : bool)     (* {"method": m, "params": good or bad[, "id"]} *)
-| JEnv (sealed : bool) (k : ckey) (n : N) (p : cj)  (* parses as EncryptedRequest *)
+| JEnv (sealed : bool) (k : ckey) (n : N) (p : cj)  (* method encrypted_request_v3 and parses as EncryptedRequest *)
 | JBatch (l : list cj)                     (* JSON array *)
 | JJunk (obj : bool)                       (* any other JSON value; obj: it still parses as a
                                               jsonrpc_core::Call (an invalid one) *)
